@@ -1,4 +1,4 @@
-\* thorough: as quick with all 7 names of NameTable (three-way webhook id collision p-q-x-io, collapse rule r_-s -> r-s): 417 configurations, 43,154 cases, 192,953 states; all exported
+\* thorough: as quick with all 7 names of NameTable (three-way webhook id collision p-q-x-io, collapse rule r_-s -> r-s): 417 configurations, 45,418 cases, 204,273 states; all exported
 SPECIFICATION Spec
 CONSTANTS
   NameIdx = {1, 2, 3, 4, 5, 6, 7}
